@@ -287,9 +287,26 @@ def write_replay(pid, sig, seed, case, msg, minimised, reproducible):
     return path
 
 
+def _watchdog(seconds, what):
+    """the driver process itself must not hang (a loop in an oracle while minimising, a stuck pool): after ``seconds`` it
+    reports a harness error and exits 2 - never 0, never a verdict"""
+    import threading
+
+    def fire():
+        sys.stderr.write('HARNESS-ERROR watchdog: %s still running after %d s\n' % (what, seconds))
+        sys.stderr.flush()
+        faulthandler.dump_traceback(all_threads=True)
+        os._exit(2)
+    t = threading.Timer(seconds, fire)
+    t.daemon = True
+    t.start()
+    return t
+
+
 def run_check(pid, tier, master_seed, jobs, n_override=None, wall_override=None):
     mod = load_prop(pid)
     t0 = time.time()
+    _wd = _watchdog((wall_override or getattr(mod, 'WALL', {}).get(tier, 900)) * 6 + 1200, 'check %s' % pid)
     n = n_override or mod.BUDGET[tier]
     wall = wall_override or getattr(mod, 'WALL', {}).get(tier, 50 if tier == 'quick' else 900)
     jobs = max(1, min(jobs, n))
@@ -373,6 +390,7 @@ def run_check(pid, tier, master_seed, jobs, n_override=None, wall_override=None)
         print(ln)
     print('%s tier=%s seed=%d cases=%d sims=%d ops=%d distinct_nontrivial=%d wall=%.1fs exit=%d' % (
         pid, tier, master_seed, done, st.sims, st.ops, len(st.distinct), wall_s, exit_code))
+    _wd.cancel()
     return exit_code
 
 
